@@ -162,6 +162,9 @@ type World struct {
 	inDriver atomic.Bool // the driver goroutine is running (set by the driver only)
 	driverID uint64      // its goroutine id
 	draining atomic.Bool
+	// LastArm is the virtual time of the latest AfterFunc arming by instrumented code (a retry timer
+	// chain that outlives its session keeps re-arming: see C13)
+	LastArm atomic.Int64
 
 	Steps     int64 // scheduler decisions taken
 	Parks     int64
@@ -974,6 +977,9 @@ func AfterFunc(d time.Duration, f func()) *time.Timer {
 	var rank uint64
 	if w := cur.Load(); w != nil {
 		rank = uint64(w.Counter("af-armed")) + 1
+		if !w.draining.Load() {
+			w.LastArm.Store(int64(w.Now()))
+		}
 	}
 	t := time.AfterFunc(d+jitter("af"), func() {
 		if w := cur.Load(); w != nil && !w.draining.Load() && !w.isDriver() {
